@@ -181,7 +181,14 @@ def dump(module, path, **kwargs):
             if isinstance(path, io.TextIOBase):
                 return path.write(dumps(module, **kwargs))
             else:
-                return path.write(dumps(module, **kwargs).encode())
+                # See pvl.dump(): a text stream that is not an
+                # io.TextIOBase refuses bytes before writing anything.
+                s = dumps(module, **kwargs)
+                write = path.write
+                try:
+                    return write(s.encode())
+                except TypeError:
+                    return write(s)
         except AttributeError:
             # Not a path, not an already-opened file.
             raise TypeError(
